@@ -217,6 +217,12 @@ theorem dblinkPair_eq (l : Bytes) :
 
 /-! ### genbankContigParser, parseReferenceInfo -/
 
+/-- the filter handed to `pars.Until` (a4b3f5d) is `contigField`'s `untilFilter contigStop`: colon, line
+feed or carriage return, for every byte; it never panics -/
+theorem contigStop_eq (b : UInt8) : Gen.contigStop b = .ok (contigStop b) := by
+  simp only [Gen.contigStop, contigStop, Bool.decide_or]
+  rfl
+
 /-- `gts.Segment{head - 1, tail}` is `contigField`'s `contigHead := head - 1, contigTail := tail` -/
 theorem contigRegion_eq (head tail : Int) : Gen.contigRegion head tail = .ok (head - 1, tail) := by
   simp only [Gen.contigRegion]
